@@ -17,7 +17,7 @@ CHECKS = {
    ref="DESIGN.md §6 C02"),
  "C03": dict(cat=MC, engine="E1",
    technique="explicit-state exploration of the real canister with history monitors on every transition (six finality clauses) plus an exhaustively enumerated depth-escape family",
-   text="All TREE histories (<= 4-5 quick, 5-7 thorough blocks; difficulties 1-3 and {1,3} nested forks whose longer branch is lighter; sliced ingestion; thresholds 1-3 incl. set_config changes mid-history; three networks) with monitors on every transition: stable height monotone, recorded stable blocks immutable and on the anchor chain, every anchor advance goes to the child that qualifies under the difficulty rule (recomputed from scratch), no qualifying child is left after an ingestion opportunity, the new anchor is the second block of the served chain, blocks disappear only with the advance and exactly the losers. Depth escape: heavy anchor, main branch grown to 520 blocks against forks of 0-5 blocks, bound recomputed in exact rational arithmetic.",
+   text="All TREE histories (<= 4-5 quick, 5-7 thorough blocks; difficulties 1-3 and {1,3} nested forks whose longer branch is lighter; sliced ingestion; thresholds 1-3 incl. set_config changes mid-history; three networks) with monitors on every transition: stable height monotone, recorded stable blocks immutable and on the anchor chain, every anchor advance goes to the child that qualifies under the difficulty rule (recomputed from scratch), no qualifying child is left after an ingestion opportunity, the new anchor is the second block of the served chain, blocks disappear only with the advance and exactly the losers. Depth escape: heavy anchor, main branch grown to 520 blocks against forks of 0-5 blocks, and a contested variant where the competing branch follows at a constant distance until the tree holds 1600-2600 unstable blocks; bound recomputed in exact rational arithmetic.",
    note="escape judged only where runner-up is unambiguous; wide-and-deep trees only via the family",
    ref="DESIGN.md §6 C03"),
  "C04": dict(cat=MC, engine="E1",
@@ -26,7 +26,7 @@ CHECKS = {
    note="c=0 belongs to C01/C02", ref="DESIGN.md §6 C04"),
  "C05": dict(cat=MC, engine="E1",
    technique="explicit-state exploration of the real canister incl. states in the middle of sliced ingestion; differential oracle balance vs sum of paged UTXOs, error classes, query vs update variants",
-   text="In every explored state (forks, the same transaction on two forks with a later spend, paused ingestion with budgets 1/2), for every address and c in {none, 0..L+1}: get_balance == sum over all pages of get_utxos; ~45 malformed / foreign-network address strings must be refused by both with the same error class; update variants return what query variants return.",
+   text="In every explored state (forks, the same transaction on two forks with a later spend, paused ingestion with budgets 1/2), for every address and c in {none, 0..L+1}: get_balance == sum over all pages of get_utxos (page size 1000, and 1 and 2 through hook H3); ~45 malformed / foreign-network address strings must be refused by both with the same error class; update variants return what query variants return.",
    note="differential: needs no reference value", ref="DESIGN.md §6 C05"),
  "C07": dict(cat=MC, engine="E1",
    technique="explicit-state exploration of the real canister with sliced ingestion and upgrades; all (start,end) pairs per state against the reference chain; long-chain boundary family",
@@ -42,11 +42,11 @@ CHECKS = {
    note="page size 1/2 through hook H3", ref="DESIGN.md §6 C06"),
  "C09": dict(cat=MC, engine="E1",
    technique="explicit-state exploration with an upgrade at every message boundary (incl. paused ingestion and, via the schedule explorer of C13, every fetch-protocol phase); complete probe set and complete logical state compared across the upgrade; differential continuation against the run without the upgrade",
-   text="One upgrade (no argument / empty / new threshold / lazy fees) at every boundary of LEDGER histories with sliced ingestion: all probe answers and the complete logical state (syncing flags, per-block metrics, overridden config masked) must be identical before/after; for up to k further events the answers must equal those of the run where the upgrade is replaced by its plain set_config. A part with every configuration field away from its default (syncing disabled, api access disabled, lazy fees, sync gate, non-default fees, watchdog and burn settings) checks that the whole configuration survives. Fetch-protocol phases (request parked, partial pages stored, complete response stored) are covered by the C13 exploration, which applies the same probe comparison at every Upgrade event.",
+   text="One upgrade (no argument / empty / new threshold / lazy fees) at every boundary of LEDGER histories with sliced ingestion: all probe answers and the complete logical state (syncing flags, per-block metrics, overridden config masked) must be identical before/after; for up to k further events the answers must equal those of the run where the upgrade is replaced by its plain set_config. Fee-carrying histories with an upgrade at any boundary are judged against the upgrade-oblivious fee reference of C15 (the fee endpoint mutates a cache and is not part of the side-effect-free probe set). A part with every configuration field away from its default (syncing disabled, api access disabled, lazy fees, sync gate, non-default fees, watchdog and burn settings) checks that the whole configuration survives. Fetch-protocol phases (request parked, partial pages stored, complete response stored) are covered by the C13 exploration, which applies the same probe comparison at every Upgrade event.",
    note="native vector memory stands in for stable memory", ref="DESIGN.md §6 C09"),
  "C10": dict(cat=MC, engine="E1",
    technique="explicit-state exploration of base tree states x exhaustive enumeration of get_successors replies (items x announced headers) fed through the real heartbeat; atomicity by state comparison with the prefix-only reply",
-   text="In every TREE state (<= 3-4 blocks, with and without pending announced headers) every reply of <= 2-3 items over 25 item kinds (incl. valid boundary timestamps, blocks of previously announced headers) and every announced-header list of <= 2-3 entries over 9 kinds: admitted blocks = longest admissible prefix, exactly one error counter +1 on a reject, complete state equal to the state after the prefix-only reply, heartbeat never traps, retained headers sound and complete; direct-call and heartbeat channels give equal states.",
+   text="In every TREE state (<= 3-4 blocks, with and without pending announced headers) every reply of <= 2-3 items over 26 item kinds (incl. valid boundary timestamps, the block of an announced header, a block whose parent is only an announced header) and every announced-header list of <= 2-3 entries over 9 kinds: admitted blocks = longest admissible prefix, exactly one error counter +1 on a reject, complete state equal to the state after the prefix-only reply, heartbeat never traps, retained headers sound and complete; direct-call and heartbeat channels give equal states.",
    note="regtest (mined) blocks only", ref="DESIGN.md §6 C10"),
  "C11": dict(cat=EX, engine="E3",
    technique="bounded-exhaustive enumeration of header-chain configurations against an independent re-implementation of Core's difficulty and timestamp rules",
@@ -58,11 +58,11 @@ CHECKS = {
    note="independent merkle root and txid uniqueness reference", ref="DESIGN.md §6 C12"),
  "C13": dict(cat=MC, engine="E2",
    technique="deviation-bounded exhaustive exploration of message schedules at the get_successors await point (heartbeats parked at a cfg-guarded yield point, harness as executor), duplicate detection on complete state",
-   text="All schedules of {start heartbeat, normal/reject/empty reply, upgrade} with <= 4 (quick) / 7 (thorough) deviations from the sequential schedule over a source with a 4-block pool and one block paginated into 1+p pages (p up to 3, and 255): at most one request outstanding, follow-ups numbered consecutively, reassembled block byte-identical, reject/upgrade discard partial data and the next request is initial naming anchor and all other unstable blocks, no block twice, no heartbeat traps, and from every state a fault-free suffix syncs everything the source offers.",
+   text="All schedules of {start heartbeat, normal/reject/empty reply, upgrade} with <= 4 (quick) / 7 (thorough) deviations from the sequential schedule over sources with pools of 4-6 blocks (with a fork, two competing branches, or a tall chain whose every reply announces new headers) and one block paginated into 1+p pages (p up to 3, and 255), on a canister configured with a non-default blocks source: at most one request outstanding, follow-ups numbered consecutively, what is stored after the last page equals what the source sent (block bytes and the headers announced with the first page), every header of a processed reply is pending afterwards, requests go to the configured source, reject/upgrade discard partial data and the next request is initial naming anchor and all other unstable blocks, no block twice, no heartbeat traps, and from every state a fault-free suffix syncs everything the source offers.",
    note="source honours its protocol; upgrades leak outstanding heartbeats as the IC does", ref="DESIGN.md §6 C13"),
  "C14": dict(cat=MC, engine="E1",
    technique="explicit-state exploration of tree histories with announced-header events x flag combinations; every endpoint x requested network called in every state",
-   text="TREE histories with chains of 1-4 announced headers on any live block (overtaken by arrivals, left on discarded forks, reached by the stable height) x the 4 flag combinations: 7 data endpoints x 3 networks must refuse iff access off, network mismatch, or (sync flag and highest connected announced header > best + 2; send_transaction exempt); exempt endpoints always answer. A mixed-difficulty part separates 'heaviest chain' from 'longest branch'.",
+   text="TREE histories with chains of 1-4 announced headers on any live block (overtaken by arrivals, left on discarded forks, reached by the stable height) x the 4 flag combinations: 7 data endpoints x 3 networks must refuse iff access off, network mismatch, or (sync flag and highest connected announced header > best + 2; send_transaction exempt); exempt endpoints always answer. A mixed-difficulty part separates 'heaviest chain' from 'longest branch'. A schedule part (C13's explorer, sync flag on) lets the headers arrive the way they do in production - in complete and paginated get_successors replies, under rejects, upgrades and interleaved heartbeats - and judges the gate in every state.",
    note="headers of discarded forks are 'either' (C20 lets them be dropped)", ref="DESIGN.md §6 C14"),
  "C15": dict(cat=MC, engine="E1",
    technique="explicit-state exploration of fee-carrying histories through the real heartbeat against a stateful reference of the caching rule; exhaustive enumeration of the percentile routine; window boundary family",
@@ -82,7 +82,7 @@ CHECKS = {
    note="documents rendered from the harness's AST", ref="DESIGN.md §6 C18"),
  "C19": dict(cat=EX, engine="E3",
    technique="bounded-exhaustive enumeration of payload mutations against an independent strict transaction parser and exact round trip",
-   text="12 base transactions x every truncation, 1-byte extension, bit flip, marker/flag edge case x access flag x networks through the real async endpoint: success, counting and unchanged forwarding iff well-formed and permitted; repeated on a canister that is behind its announced headers (send_transaction is exempt from the sync gate).",
+   text="12 base transactions x every truncation, 1-byte extension, bit flip, marker/flag edge case x access flag x networks through the real async endpoint: success, counting and unchanged forwarding iff well-formed and permitted; repeated on a canister that is behind its announced headers (send_transaction is exempt from the sync gate), and on a canister initialised with a non-default blocks source (destination of the forwarded call).",
    note="payloads where the two references disagree are undecided", ref="DESIGN.md §6 C19"),
  "C20": dict(cat=MC, engine="E1",
    technique="explicit-state exploration with a structural oracle over the serialised unstable-block bookkeeping and the block cache in every state",
@@ -104,7 +104,7 @@ m = {
   "add_only": True,
  },
  "engines": [
-  {"name": "E1", "path": "harness/src/engine.rs", "serves_properties": [], "kind_free_text": "explicit-state DFS over event histories of the real canister (state = history, backtracking = reset + replay, duplicate detection on the complete logical state), reference model in lock-step, 16 workers"},
+  {"name": "E1", "path": "harness/src/engine.rs", "serves_properties": [], "kind_free_text": "explicit-state DFS over event histories of the real canister (state = history, backtracking = reset + replay, duplicate detection on the complete logical state), reference model in lock-step, 16 workers; self-checks: probes leave the state key unchanged, reset + replay reproduces the identical key"},
   {"name": "E2", "path": "harness/src/props/c08.rs", "serves_properties": [], "kind_free_text": "stateless exhaustive schedule enumeration (message/budget schedules at the await and slicing points), deviation-bounded where stated"},
   {"name": "E3", "path": "harness/src/props", "serves_properties": [], "kind_free_text": "bounded-exhaustive enumeration of a finite input product against a reference implementation"},
  ],
